@@ -184,6 +184,7 @@ def extract(read, fail, lean_str, lean_list):
     for (name, nullable, evs) in entries:
         ev = ", ".join(f"({CODE[k]}, {i})" for (k, i) in evs)
         rows.append(f"  ({lean_str(name)}, {lean_list(nullable)}, [{ev}])")
-    lines.append(",\n".join(rows))
+    # one list element per output line (extract_consts compares sections line by line in --check mode)
+    lines.extend((r + ",") if i + 1 < len(rows) else r for i, r in enumerate(rows))
     lines.append("]")
     return lines
